@@ -61,7 +61,7 @@ Definition spec_remove (l : store) (r : rule) : store * bool :=
   if has_policy l r then (filter (neqb r) l, true) else (l, false).
 Definition notin (rs : list rule) (x : rule) : bool := negb (mem rule_eqb x rs).
 Definition spec_remove_batch (l : store) (rs : list rule) : store * bool :=
-  if forallb (has_policy l) rs then (filter (notin rs) l, true) else (l, false).
+  if forallb (has_policy l) rs && nodupb rule_eqb rs then (filter (notin rs) l, true) else (l, false).
 Definition spec_add_batch (l : store) (rs : list rule) : store * bool :=
   if forallb (fun r => negb (has_policy l r)) rs && nodupb rule_eqb rs then (l ++ rs, true) else (l, false).
 Definition replace_rule (old new : rule) (l : store) : store :=
@@ -192,7 +192,8 @@ Qed.
 Theorem remove_policies_spec l rs : NoDup l -> remove_policies l rs = spec_remove_batch l rs.
 Proof.
   intro Hnd. unfold remove_policies, spec_remove_batch.
-  destruct (forallb (has_policy l) rs); [|reflexivity]. rewrite remove_present_spec by assumption. reflexivity.
+  destruct (forallb (has_policy l) rs && nodupb rule_eqb rs); [|reflexivity].
+  rewrite remove_present_spec by assumption. reflexivity.
 Qed.
 
 (* ---------- batch add ---------- *)
@@ -329,4 +330,142 @@ Proof.
   - subst y. contradiction.
   - apply rule_eqb_eq in Ey. subst. apply En. left. reflexivity.
   - subst y. contradiction.
+Qed.
+
+(* ---------- update_policies keeps the set property ---------- *)
+Lemma set_nth_in {A} (x n : A) : forall l i, In x (set_nth i n l) -> x = n \/ In x l.
+Proof.
+  induction l as [|y l IH]; intros i H; destruct i as [|i]; simpl in H; try contradiction.
+  - destruct H as [H|H]; [left; congruence|right; right; assumption].
+  - destruct H as [H|H]; [right; left; assumption|].
+    destruct (IH i H) as [H'|H']; [left; assumption|right; right; assumption].
+Qed.
+
+Lemma set_nth_nodup {A} (n : A) : forall l i, NoDup l -> ~ In n l -> NoDup (set_nth i n l).
+Proof.
+  induction l as [|y l IH]; intros i Hnd Hn; destruct i as [|i]; simpl; try constructor.
+  - intro; apply Hn; right; assumption.
+  - inversion Hnd; assumption.
+  - inversion Hnd as [|? ? Hy Hnd']; subst.
+    intro H. apply set_nth_in in H. destruct H as [H|H].
+    + apply Hn. left. exact H.
+    + apply Hy. exact H.
+  - inversion Hnd; subst. apply IH; [assumption|intro; apply Hn; right; assumption].
+Qed.
+
+Lemma write_all_nodup : forall news idxs l,
+  NoDup l -> NoDup news -> (forall n, In n news -> ~ In n l) -> NoDup (write_all l idxs news).
+Proof.
+  induction news as [|n news IH]; intros idxs l Hl Hn Hd; destruct idxs as [|i idxs]; simpl; try assumption.
+  inversion Hn as [|? ? Hnn Hn']; subst. apply IH.
+  - apply set_nth_nodup; [assumption|]. apply Hd. left. reflexivity.
+  - assumption.
+  - intros m Hm Hin. apply set_nth_in in Hin. destruct Hin as [Hin|Hin].
+    + subst. contradiction.
+    + apply (Hd m); [right; assumption|assumption].
+Qed.
+
+Theorem update_policies_keeps_nodup l olds news l' b :
+  NoDup l -> update_policies None l olds news = Ok (l', b) -> NoDup l'.
+Proof.
+  intros Hnd H. unfold update_policies in H.
+  destruct (negb (Nat.eqb (length olds) (length news))); [inversion H; subst; assumption|].
+  destruct (indices_of l olds) as [idxs|]; [|inversion H; subst; assumption].
+  destruct (batch_addable l [] news) eqn:Eb; simpl in H; [|inversion H; subst; assumption].
+  inversion H; subst. rewrite batch_addable_spec in Eb.
+  apply andb_true_iff in Eb. destruct Eb as [Eb Hnd'].
+  apply andb_true_iff in Eb. destruct Eb as [Habs _].
+  apply write_all_nodup; [assumption|apply nodupb_NoDup; assumption|].
+  intros n Hn. rewrite forallb_forall in Habs. specialize (Habs n Hn).
+  apply negb_true_iff in Habs. apply has_policy_false. assumption.
+Qed.
+
+Theorem update_policies_all_or_nothing l olds news l' :
+  update_policies None l olds news = Ok (l', false) -> l' = l.
+Proof.
+  unfold update_policies. intro H.
+  destruct (negb (Nat.eqb (length olds) (length news))); [inversion H; reflexivity|].
+  destruct (indices_of l olds) as [idxs|]; [|inversion H; reflexivity].
+  destruct (batch_addable l [] news); simpl in H; inversion H. reflexivity.
+Qed.
+
+(* ---------- histories ---------- *)
+Inductive sop :=
+| SAdd (r : rule) | SAddMany (rs : list rule) | SRemove (r : rule) | SRemoveMany (rs : list rule)
+| SRemoveFiltered (i : nat) (vs : list name) | SUpdate (o n : rule) | SUpdateMany (os ns : list rule).
+
+(* the code (model), on a store without priority column; an exception leaves the store as it is *)
+Definition sstep (l : store) (o : sop) : store :=
+  match o with
+  | SAdd r => fst (add_policy None l r)
+  | SAddMany rs => fst (add_policies None l rs)
+  | SRemove r => fst (remove_policy l r)
+  | SRemoveMany rs => fst (remove_policies l rs)
+  | SRemoveFiltered i vs => match remove_filtered l i vs with Ok (l', _) => l' | Err _ => l end
+  | SUpdate o n => match update_policy None l o n with Ok (l', _) => l' | Err _ => l end
+  | SUpdateMany os ns => match update_policies None l os ns with Ok (l', _) => l' | Err _ => l end
+  end.
+
+(* the abstract insertion-ordered set *)
+Definition sspec (l : store) (o : sop) : store :=
+  match o with
+  | SAdd r => fst (spec_add l r)
+  | SAddMany rs => fst (spec_add_batch l rs)
+  | SRemove r => fst (spec_remove l r)
+  | SRemoveMany rs => fst (spec_remove_batch l rs)
+  | SRemoveFiltered i vs =>
+      if forallb (fun r => match filter_match r i vs with Some _ => true | None => false end) l
+      then filter (fun r => negb (fm_true i vs r)) l else l
+  | SUpdate o n => fst (spec_update l o n)
+  | SUpdateMany os ns => match update_policies None l os ns with Ok (l', _) => l' | Err _ => l end
+  end.
+
+Lemma split_filtered_total : forall l i vs,
+  forallb (fun r => match filter_match r i vs with Some _ => true | None => false end) l = true ->
+  exists kept gone, split_filtered l i vs = Ok (kept, gone).
+Proof.
+  induction l as [|x l IH]; intros i vs H; simpl; [eauto|].
+  simpl in H. apply andb_true_iff in H. destruct H as [Hx Hl].
+  destruct (filter_match x i vs) as [b|]; [|discriminate].
+  destruct (IH i vs Hl) as [k [g Hkg]]. rewrite Hkg. destruct b; eauto.
+Qed.
+
+Lemma split_filtered_err : forall l i vs,
+  forallb (fun r => match filter_match r i vs with Some _ => true | None => false end) l = false ->
+  exists c, split_filtered l i vs = Err c.
+Proof.
+  induction l as [|x l IH]; intros i vs H; simpl in *; [discriminate|].
+  destruct (filter_match x i vs) as [b|]; [|eauto]. simpl in H.
+  destruct (IH i vs H) as [c Hc]. rewrite Hc. eauto.
+Qed.
+
+Lemma sstep_refines l o : NoDup l -> sstep l o = sspec l o /\ NoDup (sstep l o).
+Proof.
+  intro Hnd. destruct o as [r|rs|r|rs|i vs|o n|os ns]; simpl.
+  - rewrite add_policy_spec. split; [reflexivity|apply add_keeps_nodup; assumption].
+  - rewrite add_policies_spec. split; [reflexivity|apply add_batch_keeps_nodup; assumption].
+  - rewrite remove_policy_spec by assumption. split; [reflexivity|].
+    unfold spec_remove. destruct (has_policy l r); simpl; [apply NoDup_filter|]; assumption.
+  - rewrite remove_policies_spec by assumption. split; [reflexivity|].
+    unfold spec_remove_batch. destruct (forallb (has_policy l) rs && nodupb rule_eqb rs); simpl;
+      [apply NoDup_filter|]; assumption.
+  - unfold remove_filtered.
+    destruct (forallb (fun r => match filter_match r i vs with Some _ => true | None => false end) l) eqn:E.
+    + destruct (split_filtered_total l i vs E) as [k [g Hkg]]. rewrite Hkg.
+      destruct (split_filtered_spec l i vs k g Hkg) as [_ Hk]. subst k.
+      split; [reflexivity|apply NoDup_filter; assumption].
+    + destruct (split_filtered_err l i vs E) as [c Hc]. rewrite Hc. split; [reflexivity|assumption].
+  - rewrite update_policy_spec by assumption. split; [reflexivity|apply update_keeps_nodup; assumption].
+  - split; [reflexivity|].
+    destruct (update_policies None l os ns) as [[l' b]|c] eqn:E; [|assumption].
+    apply (update_policies_keeps_nodup l os ns l' b Hnd E).
+Qed.
+
+(* every management history keeps the store a duplicate-free list and is, step for step, the
+   abstract ordered set *)
+Theorem history_refines : forall ops l,
+  NoDup l -> fold_left sstep ops l = fold_left sspec ops l /\ NoDup (fold_left sstep ops l).
+Proof.
+  induction ops as [|o ops IH]; intros l Hnd; simpl; [split; [reflexivity|assumption]|].
+  destruct (sstep_refines l o Hnd) as [He Hn]. rewrite <- He. apply IH. assumption.
 Qed.
